@@ -4,6 +4,7 @@ Theorems over the model `InfluxVerif.Meta` (a port of services/meta/data.go + st
 that the correspondence check compares with the real FSM after every command).
 -/
 import InfluxVerif.Model.Meta
+import InfluxVerif.Lemmas.MetaInv
 import Mathlib.Data.List.Nodup
 import InfluxVerif.Gen.C06
 
@@ -141,5 +142,133 @@ theorem gen_apply_table : Gen.C06.applyCases =
 
 example : (step true {} (.createDatabase "db" none) 1 1).2 = none := by decide
 example : (step true {} (.createDatabase "" none) 1 1).2 = some "database name required" := by decide
+
+/-! ### the shard groups of a policy never overlap -/
+
+/-- what the callers of the FSM guarantee about a command: a shard group is created for a
+timestamp a point can carry (`models.MinNanoTime ≤ t ≤ models.MaxNanoTime`), and a deletion
+time is a real time (`DeletedAt = now`, never the zero time that means "not deleted") -/
+def Cmd.valid : Cmd → Prop
+  | .createSG _ _ ts => minNanoTime ≤ ts ∧ ts ≤ maxNanoTime
+  | .deleteSG _ _ _ age => age ≠ .live
+  | .dropShard _ age => age ≠ .live
+  | .removeOwner _ _ age => age ≠ .live
+  | .deleteDataNode _ age => age ≠ .live
+  | _ => True
+
+theorem applyCmd_ok (auto : Bool) (d d' : Data) (c : Cmd) (hv : c.valid) (h : applyCmd auto d c = .ok d')
+    (hok : DataOK d) : DataOK d' := by
+  cases c with
+  | createDatabase name rp =>
+    simp only [applyCmd, bind, Except.bind] at h
+    cases h1 : createDatabase d name with
+    | error e => simp [h1] at h
+    | ok d1 =>
+      simp only [h1] at h
+      have hok1 := createDatabase_ok d d1 name h1 hok
+      cases rp with
+      | none =>
+        simp only at h
+        split at h
+        · exact createRP_ok _ _ _ _ _ _ _ _ h hok1
+        · cases h; exact hok1
+      | some r =>
+        obtain ⟨rpn, replicaN, dur, sgd⟩ := r
+        simp only at h
+        cases h2 : createRetentionPolicy d1 name rpn replicaN dur sgd true with
+        | error e =>
+          rw [h2] at h
+          split at h <;> cases h
+        | ok d2 =>
+          rw [h2] at h
+          simp only at h
+          cases h
+          exact createRP_ok _ _ _ _ _ _ _ _ h2 hok1
+  | dropDatabase name => exact dropDatabase_ok d d' name h hok
+  | createRP db name replicaN dur sgd dflt => exact createRP_ok _ _ _ _ _ _ _ _ h hok
+  | dropRP db name => exact dropRP_ok _ _ _ _ h hok
+  | updateRP db name nn dur rn sgd dflt => exact updateRP_ok _ _ _ _ _ _ _ _ _ h hok
+  | createSG db rp ts => exact createSG_ok _ _ _ _ _ hv.1 hv.2 h hok
+  | deleteSG db rp id age => exact deleteSG_ok _ _ _ _ _ _ hv h hok
+  | truncate ts => simp only [applyCmd] at h; cases h; exact truncate_ok d ts hok
+  | prune => simp only [applyCmd] at h; cases h; exact prune_ok d hok
+  | dropShard id age => simp only [applyCmd] at h; cases h; exact dropShard_ok d id age hv hok
+  | copyOwner s n => simp only [applyCmd] at h; cases h; exact copyOwner_ok d s n hok
+  | removeOwner s n age => simp only [applyCmd] at h; cases h; exact removeOwner_ok d s n age hv hok
+  | createDataNode a t => exact createDataNode_ok _ _ _ _ h hok
+  | deleteDataNode id age => exact deleteDataNode_ok _ _ _ _ hv h hok
+  | updateDataNode id a t => exact updateDataNode_ok _ _ _ _ _ h hok
+  | createMetaNode a t rand =>
+    simp only [applyCmd] at h
+    cases h
+    apply setClusterID_ok
+    split
+    · rename_i d2 hd2; exact createMetaNode_ok _ _ _ _ hd2 hok
+    · exact hok
+  | deleteMetaNode id =>
+    simp only [applyCmd] at h
+    split at h
+    · exact deleteMetaNode_ok _ _ _ h hok
+    · cases h
+  | setMetaNode a t rand =>
+    simp only [applyCmd] at h
+    cases h
+    apply setClusterID_ok
+    split
+    · rename_i d2 hd2; exact setMetaNode_ok _ _ _ _ hd2 hok
+    · exact hok
+  | createUser n hs a => exact createUser_ok _ _ _ _ _ h hok
+  | dropUser n => exact dropUser_ok _ _ _ h hok
+  | updateUser n hs => exact updateUser_ok _ _ _ _ h hok
+  | setPrivilege u db p => exact setPrivilege_ok _ _ _ _ _ h hok
+  | setAdmin u a => exact setAdmin_ok _ _ _ _ h hok
+  | createCQ db n q => exact createCQ_ok _ _ _ _ _ h hok
+  | dropCQ db n => exact dropCQ_ok _ _ _ _ h hok
+  | createSub db rp n m ds bad => exact createSub_ok _ _ _ _ _ _ _ _ h hok
+  | dropSub db rp n => exact dropSub_ok _ _ _ _ _ h hok
+
+theorem step_ok (auto : Bool) (d : Data) (c : Cmd) (term index : Nat) (hv : c.valid) (hok : DataOK d) :
+    DataOK (step auto d c term index).1 := by
+  unfold step
+  split
+  · rename_i d' hd
+    exact dataOK_of_dbs _ d' rfl (applyCmd_ok auto d d' c hv hd hok)
+  · exact dataOK_of_dbs _ d rfl hok
+
+/-- **The shard groups of a retention policy never overlap, along every command log.**
+Starting from metadata that satisfies the invariant (the empty metadata does), after any
+sequence of valid commands — accepted or rejected, in any order — every retention policy has
+a positive shard-group duration, every group is well-formed (start ≤ end, a truncation point
+inside the group) and no instant is served by two groups of one policy. -/
+theorem groups_never_overlap (auto : Bool) (d : Data) (log : Log) (hv : ∀ e ∈ log, e.1.valid) (hok : DataOK d) :
+    DataOK (run auto d log) := by
+  unfold run
+  induction log generalizing d with
+  | nil => exact hok
+  | cons e rest ih =>
+    simp only [List.foldl_cons]
+    exact ih _ (fun x hx => hv x (List.mem_cons_of_mem _ hx)) (step_ok auto d e.1 e.2.1 e.2.2 (hv e (by simp)) hok)
+
+/-- the same, said about instants: at most one group of a policy serves a timestamp — so the
+group a point is routed to (`ShardGroupByTimestamp`, the first such group) is the only one -/
+theorem at_most_one_group_serves (auto : Bool) (d : Data) (log : Log) (hv : ∀ e ∈ log, e.1.valid) (hok : DataOK d)
+    (db : DB) (hdb : db ∈ (run auto d log).dbs) (rp : RP) (hrp : rp ∈ db.rps) (t : Int) :
+    (rp.groups.filter fun g => g.covers t).length ≤ 1 := by
+  have hpw := (groups_never_overlap auto d log hv hok db hdb rp hrp).2.2
+  have hf : (rp.groups.filter fun g => g.covers t).Pairwise Apart := hpw.sublist List.filter_sublist
+  match hl : rp.groups.filter (fun g => g.covers t) with
+  | [] => simp [hl]
+  | [_] => simp [hl]
+  | a :: b :: rest =>
+    exfalso
+    rw [hl] at hf
+    have hab : Apart a b := (List.pairwise_cons.1 hf).1 b (by simp)
+    have ha : a ∈ rp.groups.filter (fun g => g.covers t) := by rw [hl]; simp
+    have hb : b ∈ rp.groups.filter (fun g => g.covers t) := by rw [hl]; simp
+    exact hab t ⟨(List.mem_filter.1 ha).2, (List.mem_filter.1 hb).2⟩
+
+/-- the empty metadata satisfies the invariant (the premise is not vacuous), and so does a
+metadata value with two adjacent groups, one of them truncated -/
+example : DataOK ({} : Data) := by intro db hdb; simp at hdb
 
 end InfluxVerif.Meta
